@@ -1,6 +1,8 @@
 import ParolModel.Proofs.LaOrder3
 import ParolModel.Proofs.LaTotal
 import ParolModel.Proofs.PanicFree
+import ParolModel.Proofs.PipelineMain
+import ParolModel.Model.PanicSites2
 /-! Proofs (C26b): `CompiledDFA::minimize` is TOTAL on automata whose accepting states are leaves.
 
 The model of `crates/parol/src/analysis/compiled_la_dfa.rs` (`Model/LaBuild.lean`: `adjOfCompiled`,
@@ -760,3 +762,344 @@ theorem compile_total (k : Nat) {sets : List (Nat × List Tuple)} (ok : SetsOk s
   exact ⟨d, c, hd, hc⟩
 
 end ParolModel
+
+/-! ### the generator model `genTables` has no panic outcome -/
+namespace ParolModel
+open KS
+
+theorem compiledOk_no_trans (p0 : Int) (k : Nat) : CompiledOk ⟨p0, [], k⟩ := by
+  refine ⟨rfl, ?_, ?_, ?_, ?_⟩
+  · intro t1 h; cases h
+  · intro t h; cases h
+  · intro t h; cases h
+  · intro _ u h; cases h
+
+/-- What `calculate_k_tuples` hands to the uniting loop for non-terminal `A` of a grammar of the
+    class, at the `k` that `decidable` answered: for one alternative (`k = 0`) a single set of
+    ε-tuples (no `unite` call happens), otherwise (`k ≥ 1`) non-empty, pairwise disjoint,
+    prefix-free sets. -/
+theorem sets_of_decided {G : Grammar} {fuel K A k : Nat} {sets : List (Nat × TSet)} (hno : NoEoi G)
+    (hprod : KS.Productive G) (hreach : KS.Reachable G) (hnlr : NoLeftRec G)
+    (hdec : decidableM G fuel A K = .ok k) (hsets : laSets G fuel A k = some sets) :
+    (k = 0 ∧ ∃ p S, sets = [(p, S)] ∧ ∀ t ∈ S, t = []) ∨ (1 ≤ k ∧ SetsOk sets ∧ sets ≠ []) := by
+  obtain ⟨i0, p0, hp0, hl0⟩ := decidableM_ok_prod hdec
+  rcases decidableM_ok_inv hdec with ⟨rfl, pi, hpi⟩ | ⟨hk, sets', hsets', hdis⟩
+  · obtain ⟨hkeys, hnil⟩ := laSets_zero_nil hno hsets
+    rw [hpi] at hkeys
+    match sets, hkeys, hnil with
+    | [(a, S)], _, hnil => exact Or.inl ⟨rfl, a, S, rfl, hnil (a, S) (by simp)⟩
+  · rw [hsets] at hsets'
+    injection hsets' with hsets'
+    subst hsets'
+    obtain ⟨hc1, hc2⟩ := laSets_some_comp hsets
+    have hspecAt := setsAreSpecAt_of_class hno hprod hreach hnlr hk hc1 hc2
+    have hne : ∃ f, FollowK G k A f := by
+      obtain ⟨f, hf⟩ := followKc_inh hreach (List.mem_of_getElem? hp0) k
+      exact ⟨f, hl0 ▸ followK_iff_ctx.2 hf⟩
+    have hspec := laSets_spec hk hno hspecAt hne hsets
+    have ok := setsOk_of_laSpec hno hprod hreach hspec hdis
+    have hnil : sets ≠ [] := by
+      obtain ⟨S, hS, _⟩ := hspec.of_prod hp0 hl0
+      intro e; rw [e] at hS; cases hS
+    exact Or.inr ⟨hk, ok, hnil⟩
+
+/-- In both cases the whole chain trie → unite → compile → minimise returns an automaton. -/
+theorem chain_total_of_decided {k : Nat} {sets : List (Nat × List Tuple)} (ch : List Nat)
+    (h : (k = 0 ∧ ∃ p S, sets = [(p, S)] ∧ ∀ t ∈ S, t = []) ∨ (1 ≤ k ∧ SetsOk sets ∧ sets ≠ [])) :
+    ∃ d c, uniteAll true k sets = some (.ok d) ∧ compileDfa d ch = some c := by
+  rcases h with ⟨rfl, a, S, rfl, hS⟩ | ⟨_, ok, hnil⟩
+  · refine ⟨fromKTuples 0 S a, ?_⟩
+    have hd : uniteAll true 0 [(a, S)] = some (.ok (fromKTuples 0 S a)) := by
+      simp only [uniteAll, List.foldlM_nil]
+      rfl
+    have hraw : compileRaw (fromKTuples 0 S a) = ⟨annot [(a : Int)] 0, [], 0⟩ := by
+      rw [fromKTuples_all_nil 0 S a hS]
+      rfl
+    obtain ⟨c, hc⟩ := minimizeC_total (hraw ▸ compiledOk_no_trans _ _) ch
+    exact ⟨c, hd, hc⟩
+  · exact compile_total k ok hnil ch
+
+/-- For a grammar of the class, once `decidable` has answered `Ok(k)` for `A` and the FIRST/FOLLOW
+    fixpoints at `k` have been computed, the rest of the chain for `A` — tries, `unite`,
+    conversion, minimisation — returns a compiled automaton. -/
+theorem genAuto_total {G : Grammar} {fuel K A k : Nat} {sets : List (Nat × TSet)} (hno : NoEoi G)
+    (hprod : KS.Productive G) (hreach : KS.Reachable G) (hnlr : NoLeftRec G)
+    (hdec : decidableM G fuel A K = .ok k) (hsets : laSets G fuel A k = some sets) :
+    ∃ c, genAuto G fuel K A = .ok c := by
+  obtain ⟨d, c, hd, hc⟩ := chain_total_of_decided [] (sets_of_decided hno hprod hreach hnlr hdec hsets)
+  exact ⟨c, by simp only [genAuto, hdec, hsets, hd, hc]⟩
+
+/-- The outcomes of the model of one non-terminal's automaton for a grammar of the class: an
+    automaton, `MaxKExceeded`, "not part of the grammar", or the MODEL's fixpoint fuel — never
+    `panic`, never `conflict`. -/
+theorem genAuto_outcomes {G : Grammar} (fuel K A : Nat) (hno : NoEoi G)
+    (hprod : KS.Productive G) (hreach : KS.Reachable G) (hnlr : NoLeftRec G) :
+    (∃ c, genAuto G fuel K A = .ok c) ∨ genAuto G fuel K A = .error .maxK ∨
+      genAuto G fuel K A = .error .notPart ∨ genAuto G fuel K A = .error .fuel := by
+  cases hdec : decidableM G fuel A K with
+  | ok k =>
+    cases hsets : laSets G fuel A k with
+    | none => exact Or.inr (Or.inr (Or.inr (by simp only [genAuto, hdec, hsets])))
+    | some sets => exact Or.inl (genAuto_total hno hprod hreach hnlr hdec hsets)
+  | errMaxK => exact Or.inr (Or.inl (by simp only [genAuto, hdec, GenErr.ofDec]))
+  | errNotPart => exact Or.inr (Or.inr (Or.inl (by simp only [genAuto, hdec, GenErr.ofDec])))
+  | fuel => exact Or.inr (Or.inr (Or.inr (by simp only [genAuto, hdec, GenErr.ofDec])))
+
+theorem genAuto_ne_panic {G : Grammar} (fuel K A : Nat) (hno : NoEoi G)
+    (hprod : KS.Productive G) (hreach : KS.Reachable G) (hnlr : NoLeftRec G) :
+    genAuto G fuel K A ≠ .error .panic := by
+  rcases genAuto_outcomes fuel K A hno hprod hreach hnlr with ⟨c, h⟩ | h | h | h <;>
+    (rw [h]; intro e; cases e)
+
+/-- `calculate_k_tuples` fails only with an error of `decidable` (or the model's fuel). -/
+theorem calcTuplesLoop_err {G : Grammar} {fuel K : Nat} : ∀ (l : List Nat) (acc : List (Nat × TSet)) {A : Nat} {e : DecRes},
+    calcTuplesLoop G fuel K l acc = .err A e → ∀ k, e ≠ .ok k := by
+  intro l
+  induction l with
+  | nil => intro acc A e h; cases h
+  | cons B rest ih =>
+    intro acc A e h k
+    simp only [calcTuplesLoop] at h
+    split at h
+    · split at h
+      · exact ih _ h k
+      · injection h with _ h; subst h; intro e'; cases e'
+    · rename_i e0 hne
+      injection h with _ h
+      subst h
+      exact hne k
+
+end ParolModel
+
+/-! ### the cache slots of `FirstCache` / `FollowCache` (guarded models of `Model/PanicSites2.lean`) -/
+namespace ParolModel.Panic
+open ParolModel KS
+
+theorem firstCodeG_eq (G : Grammar) (fuel : Nat) : ∀ k, k ≤ maxKConst → firstCodeG G fuel k = some (firstCode G fuel k)
+  | 0, _ => by simp [firstCodeG, firstCode, slotOk]
+  | k+1, h => by
+    have ih := firstCodeG_eq G fuel k (by omega)
+    simp [firstCodeG, firstCode, slotOk, h, ih]
+
+theorem followCodeG_eq (G : Grammar) (fuel : Nat) : ∀ k, k ≤ maxKConst → followCodeG G fuel k = some (followCode G fuel k)
+  | 0, h => by simp [followCodeG, followCode, slotOk, firstCodeG_eq G fuel 0 h]
+  | k+1, h => by
+    have ih := followCodeG_eq G fuel k (by omega)
+    simp [followCodeG, followCode, slotOk, h, ih, firstCodeG_eq G fuel (k+1) h]
+
+theorem laSetsG_eq (G : Grammar) (fuel A : Nat) {k : Nat} (h : k ≤ maxKConst) :
+    laSetsG G fuel A k = some (laSets G fuel A k) := by
+  simp [laSetsG, laSets, firstCodeG_eq G fuel k h, followCodeG_eq G fuel k h]
+
+theorem decLoopG_eq (G : Grammar) (fuel A : Nat) : ∀ (n cur : Nat), cur + n ≤ maxKConst + 1 →
+    decLoopG G fuel A n cur = some (decLoop G fuel A n cur) := by
+  intro n
+  induction n with
+  | zero => intro cur _; rfl
+  | succ n ih =>
+    intro cur h
+    simp only [decLoopG, decLoop, laSetsG_eq G fuel A (show cur ≤ maxKConst by omega)]
+    cases laSets G fuel A cur with
+    | none => rfl
+    | some sets =>
+      simp only
+      split
+      · rfl
+      · exact ih (cur + 1) (by omega)
+
+theorem decidableG_eq (G : Grammar) (fuel A : Nat) {maxK : Nat} (h : maxK ≤ maxKConst) :
+    decidableG G fuel A maxK = some (decidableM G fuel A maxK) := by
+  unfold decidableG decidableM
+  generalize prodIdxs G A = l
+  match l with
+  | [] => rfl
+  | [_] => rfl
+  | _ :: _ :: _ => exact decLoopG_eq G fuel A maxK 1 (by omega)
+
+theorem decLoop_ok_lt {G : Grammar} {fuel A : Nat} : ∀ (n cur k : Nat), decLoop G fuel A n cur = .ok k → k < cur + n := by
+  intro n
+  induction n with
+  | zero => intro cur k h; cases h
+  | succ n ih =>
+    intro cur k h
+    simp only [decLoop] at h
+    split at h
+    · cases h
+    · split at h
+      · injection h with h; omega
+      · have := ih (cur + 1) k h; omega
+
+/-- `decidable` never answers a `k` above the limit it was given. -/
+theorem decidableM_ok_le {G : Grammar} {fuel A maxK k : Nat} (h : decidableM G fuel A maxK = .ok k) : k ≤ maxK := by
+  unfold decidableM at h
+  split at h
+  · cases h
+  · injection h with h; omega
+  · have := decLoop_ok_lt maxK 1 k h; omega
+
+theorem calcTuplesLoopG_eq (G : Grammar) (fuel : Nat) {maxK : Nat} (h : maxK ≤ maxKConst) :
+    ∀ (l : List Nat) (acc : List (Nat × TSet)),
+      calcTuplesLoopG G fuel maxK l acc = some (calcTuplesLoop G fuel maxK l acc) := by
+  intro l
+  induction l with
+  | nil => intro acc; rfl
+  | cons A rest ih =>
+    intro acc
+    simp only [calcTuplesLoopG, calcTuplesLoop, decidableG_eq G fuel A h]
+    cases hd : decidableM G fuel A maxK with
+    | ok k =>
+      simp only [laSetsG_eq G fuel A (show k ≤ maxKConst from Nat.le_trans (decidableM_ok_le hd) h)]
+      cases laSets G fuel A k with
+      | none => rfl
+      | some sets => exact ih _
+    | errMaxK => rfl
+    | errNotPart => rfl
+    | fuel => rfl
+
+theorem laSets_keys {G : Grammar} {fuel A k : Nat} {sets : List (Nat × TSet)} (h : laSets G fuel A k = some sets) :
+    sets.map (·.1) = prodIdxs G A := by
+  unfold laSets at h
+  cases hfv : firstCode G fuel k with
+  | none => simp [hfv] at h
+  | some fv =>
+    cases hfw : followCode G fuel k with
+    | none => simp [hfv, hfw] at h
+    | some fw =>
+      simp only [hfv, hfw, Option.bind_some, Option.map_some, Option.some.injEq] at h
+      subst h
+      simp [Function.comp_def]
+
+theorem calcTuplesLoop_keys {G : Grammar} {fuel K : Nat} : ∀ (l : List Nat) (acc m : List (Nat × TSet)),
+    calcTuplesLoop G fuel K l acc = .ok m → (∀ q ∈ acc, ∃ p, G.prods[q.1]? = some p) →
+    ∀ q ∈ m, ∃ p, G.prods[q.1]? = some p := by
+  intro l
+  induction l with
+  | nil =>
+    intro acc m h hacc
+    simp only [calcTuplesLoop] at h
+    injection h with h
+    subst h
+    exact hacc
+  | cons A rest ih =>
+    intro acc m h hacc
+    simp only [calcTuplesLoop] at h
+    split at h
+    · split at h
+      · rename_i k _ sets hs
+        apply ih _ m h
+        intro q hq
+        rcases List.mem_append.1 hq with hq | hq
+        · exact hacc q hq
+        · have : q.1 ∈ prodIdxs G A := by
+            rw [← laSets_keys hs]
+            exact List.mem_map_of_mem hq
+          obtain ⟨p, hp, _⟩ := mem_prodIdxs.1 this
+          exact ⟨p, hp⟩
+      · cases h
+    · cases h
+
+/-! ### `compile_production_equation` with the deprecated symbol variants -/
+
+/-- a part of the equation: one non-terminal, or a non-empty run of terminals -/
+def PartOk (part : List RSym) : Prop := (∃ B, part = [.n B]) ∨ (part ≠ [] ∧ ∀ s ∈ part, s.isT = true)
+
+theorem partsStep_ok {acc acc' : List (List RSym)} {s : RSym} (h : partsStep acc s = some acc')
+    (hacc : ∀ part ∈ acc, PartOk part) : ∀ part ∈ acc', PartOk part := by
+  unfold partsStep at h
+  have hpush : ∀ (x : RSym), PartOk [x] → ∀ part ∈ acc ++ [[x]], PartOk part := by
+    intro x hx part hp
+    rcases List.mem_append.1 hp with hp | hp
+    · exact hacc part hp
+    · simp only [List.mem_singleton] at hp
+      subst hp; exact hx
+  split at h
+  · rename_i B
+    injection h with h; subst h
+    exact hpush _ (Or.inl ⟨B, rfl⟩)
+  · rename_i a
+    have hta : PartOk [RSym.t a] := Or.inr ⟨by simp, by simp [RSym.isT]⟩
+    split at h
+    · injection h with h; subst h
+      exact hpush _ hta
+    · rename_i last hlast
+      split at h
+      · rename_i hT
+        injection h with h; subst h
+        intro part hp
+        rcases List.mem_append.1 hp with hp | hp
+        · exact hacc part ((List.dropLast_sublist _).subset hp)
+        · simp only [List.mem_singleton] at hp
+          subst hp
+          have hl : PartOk last := hacc last (List.mem_of_getLast? hlast)
+          refine Or.inr ⟨by simp, ?_⟩
+          intro x hx
+          rcases List.mem_append.1 hx with hx | hx
+          · rcases hl with ⟨B, rfl⟩ | ⟨_, hall⟩
+            · simp [RSym.isT] at hT
+            · exact hall x hx
+          · simp only [List.mem_singleton] at hx
+            subst hx; rfl
+      · injection h with h; subst h
+        exact hpush _ hta
+  · cases h
+
+theorem partsFold_ok : ∀ (rhs : List RSym) {acc acc' : List (List RSym)}, rhs.foldlM partsStep acc = some acc' →
+    (∀ part ∈ acc, PartOk part) → ∀ part ∈ acc', PartOk part := by
+  intro rhs
+  induction rhs with
+  | nil =>
+    intro acc acc' h hacc
+    simp only [List.foldlM_nil] at h
+    injection h with h; subst h; exact hacc
+  | cons s rest ih =>
+    intro acc acc' h hacc
+    rw [foldlM_option_cons] at h
+    cases h1 : partsStep acc s with
+    | none => simp [h1] at h
+    | some a1 =>
+      simp only [h1, Option.bind_some] at h
+      exact ih h (partsStep_ok h1 hacc)
+
+theorem equationOk_of_partOk {parts : List (List RSym)} (h : ∀ part ∈ parts, PartOk part) : equationOk parts = true := by
+  unfold equationOk
+  rw [List.all_eq_true]
+  intro part hp
+  rcases h part hp with ⟨B, rfl⟩ | ⟨hne, hall⟩
+  · rfl
+  · cases part with
+    | nil => exact absurd rfl hne
+    | cons x xs =>
+      have hx := hall x List.mem_cons_self
+      cases x with
+      | t a =>
+        simp only [List.head?_cons]
+        rw [List.all_eq_true]
+        intro y hy
+        have := hall y hy
+        cases y <;> simp_all [RSym.isT, createOk]
+      | n B => simp [RSym.isT] at hx
+      | other => simp [RSym.isT] at hx
+
+theorem partsFold_none_iff : ∀ (rhs : List RSym) (acc : List (List RSym)),
+    rhs.foldlM partsStep acc = none ↔ RSym.other ∈ rhs := by
+  intro rhs
+  induction rhs with
+  | nil => intro acc; simp
+  | cons s rest ih =>
+    intro acc
+    rw [foldlM_option_cons]
+    cases s with
+    | other => simp [partsStep]
+    | n B =>
+      simp only [partsStep, Option.bind_some, ih, List.mem_cons, reduceCtorEq, false_or]
+    | t a =>
+      have : ∃ a1, partsStep acc (.t a) = some a1 := by
+        unfold partsStep
+        simp only
+        split
+        · exact ⟨_, rfl⟩
+        · split <;> exact ⟨_, rfl⟩
+      obtain ⟨a1, h1⟩ := this
+      simp only [h1, Option.bind_some, ih, List.mem_cons, reduceCtorEq, false_or]
+
+end ParolModel.Panic
